@@ -50,11 +50,13 @@ Definition wf_cand_orig (c : scand) : bool :=
 (* ---------- CSS text: fillers and url(...) tokens, alternating *)
 Record ctok := CTok {
   ct_fill : bytes;    (* the text before the token *)
+  ct_p1 : bytes;      (* spaces / tabs between the parenthesis and the string (CSS allows them) *)
   ct_q : bytes;       (* "", one single quote or one double quote *)
-  ct_url : bytes
+  ct_url : bytes;
+  ct_p2 : bytes
 }.
-Definition render_ctok (t : ctok) : bytes :=
-  ct_fill t ++ bs "url(" ++ ct_q t ++ ct_url t ++ ct_q t ++ [")"].
+Definition ct_inner (t : ctok) : bytes := ct_p1 t ++ (ct_q t ++ ct_url t ++ ct_q t) ++ ct_p2 t.
+Definition render_ctok (t : ctok) : bytes := ct_fill t ++ bs "url(" ++ ct_inner t ++ [")"].
 Definition render_css (d : list ctok * bytes) : bytes := flat_map render_ctok (fst d) ++ snd d.
 
 Definition quote_ok (q : bytes) : bool :=
@@ -71,8 +73,10 @@ Definition css_body_ok (u : bytes) : bool :=
   && match u with [] => true | x :: _ => edge_char x end
   && match rev u with [] => true | x :: _ => edge_char x end.
 (* a filler of a style element never contains the four characters u r l ( in a row *)
+Definition is_pad (c : ascii) : bool := Ascii.eqb c " " || Ascii.eqb c "009".
 Definition wf_ctok (t : ctok) : bool :=
-  negb (containsb (bs "url(") (ct_fill t)) && quote_ok (ct_q t) && css_body_ok (ct_url t).
+  negb (containsb (bs "url(") (ct_fill t)) && quote_ok (ct_q t) && css_body_ok (ct_url t)
+  && forallb is_pad (ct_p1 t) && forallb is_pad (ct_p2 t).
 Definition wf_css (d : list ctok * bytes) : bool :=
   forallb wf_ctok (fst d) && negb (containsb (bs "url(") (snd d)).
 
